@@ -474,3 +474,4 @@ fn st_connect_error_unavailable() {
     core::mem::forget(got);
     core::mem::forget(e);
 }
+
